@@ -15,6 +15,7 @@ import (
 	"path/filepath"
 	"regexp"
 	"sort"
+	"strconv"
 	"strings"
 	"sync"
 	"time"
@@ -41,6 +42,8 @@ type worldResult struct {
 	Dir       string
 	NoErrOK   bool // generation-time clause checked and held
 	NoErrViol string
+	RaceRan    bool
+	RaceReport string
 }
 
 func goRun(dir string, env []string, name string, args ...string) (string, error) {
@@ -203,7 +206,7 @@ func (s *Spec) TestSource() string {
 	}
 	b.WriteString("\t}\n}\n\nfunc TestMain(m *testing.M) { harness.Main(m) }\n\n")
 	if s.Prop == "C04" {
-		b.WriteString("func TestSim(t *testing.T) { harness.RunC04(t, world) }\n")
+		b.WriteString("func TestSim(t *testing.T) { harness.RunC04(t, world) }\n\nfunc TestRace(t *testing.T) { harness.RunRace(t, world) }\n")
 	} else {
 		b.WriteString("func TestSim(t *testing.T) { harness.RunC07(t, world) }\n")
 	}
@@ -409,6 +412,12 @@ func Check(id, tier string, seed uint64, repo, vd string) (*gensim.Outcome, erro
 			checks = 300
 		}
 	}
+	if v, err := strconv.Atoi(os.Getenv("VERIF_WORLDS")); err == nil && v > 0 {
+		nWorlds = v
+	}
+	if v, err := strconv.Atoi(os.Getenv("VERIF_CHECKS")); err == nil && v > 0 {
+		checks = v
+	}
 	e, err := NewEngine(repo)
 	if err != nil {
 		return nil, err
@@ -445,6 +454,9 @@ func Check(id, tier string, seed uint64, repo, vd string) (*gensim.Outcome, erro
 			if err == nil && id == "C07" && !r.Rejected {
 				err = e.checkNoErrClause(r, i)
 			}
+			if err == nil && id == "C04" && tier == "thorough" && !r.Rejected && !r.Failed && i < 32 {
+				err = e.raceAux(r)
+			}
 			mu.Lock()
 			if err != nil && ferr == nil {
 				ferr = err
@@ -465,6 +477,7 @@ func Check(id, tier string, seed uint64, repo, vd string) (*gensim.Outcome, erro
 	distinct := map[string]float64{}
 	var samples []any
 	rejected, ran := 0, 0
+	raceWorlds := 0
 	var rejectSamples []string
 	formats := map[string]int{}
 	seenKey := map[string]bool{}
@@ -540,6 +553,14 @@ func Check(id, tier string, seed uint64, repo, vd string) (*gensim.Outcome, erro
 				return nil, err
 			}
 		}
+		if r.RaceReport != "" {
+			if err := record("data-race", "C04 data-race: the Go race detector (auxiliary, not simulation) reports a race between concurrent calls on one shared source: "+firstLines(r.RaceReport, 12), r.RaceReport, ""); err != nil {
+				return nil, err
+			}
+		}
+		if r.RaceRan {
+			raceWorlds++
+		}
 		_ = os.RemoveAll(r.Dir)
 	}
 	if rejected*4 > ran+rejected {
@@ -573,6 +594,7 @@ func Check(id, tier string, seed uint64, repo, vd string) (*gensim.Outcome, erro
 		cov["steps_scheduler"] = int64(counters["c04.steps"])
 		cov["context_switches"] = int64(counters["c04.context_switches"])
 		cov["distinct_interleavings"] = int64(distinct["c04.interleavings"])
+		cov["race_detector_auxiliary"] = map[string]any{"worlds": raceWorlds, "note": "thorough tier only; NOT simulation: tasks released together without the scheduler, binary built with -race; reports only real races; decides nothing on its own"}
 		if counters["c04.skipcopy_executions"] > 0 && counters["c04.skipcopy_executions_with_sharing"] == 0 {
 			return nil, &vnode.BuildError{Msg: "C04 positive control failed: skipCopySameType worlds ran but no execution exhibited sharing at an identical-type position (detector blind)"}
 		}
@@ -883,4 +905,26 @@ func mergeStats(a, b map[string]any) map[string]any {
 		a["samples"] = b["samples"]
 	}
 	return a
+}
+
+// raceAux builds the world's harness with -race and runs TestRace (auxiliary, thorough tier).
+func (e *Engine) raceAux(r *worldResult) error {
+	bin := filepath.Join(r.Dir, "race.test")
+	if out, err := goRun(r.Dir, nil, "go", "test", "-race", "-c", "-o", bin, "./run"); err != nil {
+		// the race detector may be unusable in a sandbox; that is not a violation
+		_ = out
+		return nil
+	}
+	cmd := exec.Command(bin, "-test.run", "TestRace", "-test.timeout", "20m")
+	cmd.Dir = filepath.Join(r.Dir, "run")
+	cmd.Env = append(os.Environ(), "GORACE=halt_on_error=1 exitcode=66", "CONVSIM_STATS="+filepath.Join(r.Dir, "race-stats.json"))
+	var out bytes.Buffer
+	cmd.Stdout = &out
+	cmd.Stderr = &out
+	err := cmd.Run()
+	r.RaceRan = true
+	if err != nil && strings.Contains(out.String(), "DATA RACE") {
+		r.RaceReport = out.String()
+	}
+	return nil
 }
